@@ -13599,9 +13599,17 @@ func ParseExtendedCommunity(subtype ExtendedCommunityAttrSubType, com string) (E
 	if err != nil {
 		return nil, err
 	}
-	localAdmin, _ := strconv.ParseUint(elems[10], 10, 32)
+	// values that do not fit their field are refused: narrowing them would
+	// attach (and report) a community other than the one that was asked for
+	localAdmin, err := strconv.ParseUint(elems[10], 10, 32)
+	if err != nil {
+		return nil, fmt.Errorf("invalid local administrator %q: %w", elems[10], err)
+	}
 	if subtype == EC_SUBTYPE_SOURCE_AS {
 		localAdmin = 0
+	}
+	tooLarge := func() error {
+		return fmt.Errorf("local administrator %d exceeds 65535", localAdmin)
 	}
 	addr, _ := netip.ParseAddr(elems[1])
 	isTransitive := true
@@ -13610,16 +13618,35 @@ func ParseExtendedCommunity(subtype ExtendedCommunityAttrSubType, com string) (E
 		asn, _ := strconv.ParseUint(elems[8], 10, 16)
 		return NewLinkBandwidthExtended(uint16(asn), float32(localAdmin)), nil
 	case addr.Is4():
+		if localAdmin > math.MaxUint16 {
+			return nil, tooLarge()
+		}
 		return NewIPv4AddressSpecificExtended(subtype, addr, uint16(localAdmin), isTransitive)
 	case addr.Is6():
+		if localAdmin > math.MaxUint16 {
+			return nil, tooLarge()
+		}
 		return NewIPv6AddressSpecificExtended(subtype, addr, uint16(localAdmin), isTransitive)
 	case elems[6] == "" && elems[7] == "":
-		asn, _ := strconv.ParseUint(elems[8], 10, 16)
+		asn, err := strconv.ParseUint(elems[8], 10, 32)
+		if err != nil {
+			return nil, fmt.Errorf("invalid AS number %q: %w", elems[8], err)
+		}
+		if asn > math.MaxUint16 {
+			// a 4-octet AS number in plain notation
+			if localAdmin > math.MaxUint16 {
+				return nil, tooLarge()
+			}
+			return NewFourOctetAsSpecificExtended(subtype, uint32(asn), uint16(localAdmin), isTransitive), nil
+		}
 		return NewTwoOctetAsSpecificExtended(subtype, uint16(asn), uint32(localAdmin), isTransitive), nil
 	default:
 		fst, _ := strconv.ParseUint(elems[7], 10, 16)
 		snd, _ := strconv.ParseUint(elems[8], 10, 16)
 		asn := fst<<16 | snd
+		if localAdmin > math.MaxUint16 {
+			return nil, tooLarge()
+		}
 		return NewFourOctetAsSpecificExtended(subtype, uint32(asn), uint16(localAdmin), isTransitive), nil
 	}
 }
